@@ -121,6 +121,10 @@ func (x *Explorer) allowed(fn *ssa.Function) bool {
 		return true
 	}
 	path := pkg.Pkg.Path()
+	switch fn.String() {
+	case "(*errors.errorString).Error", "(*fmt.wrapError).Error", "(*fmt.wrapError).Unwrap":
+		return true
+	}
 	for _, p := range allowedPrefixes {
 		if path == p || strings.HasPrefix(path, p+"/") {
 			return true
